@@ -178,6 +178,14 @@ def ch2_result_tells_enqueued(ctx, rep, arms=("BlockOnFull", "DropOldest", "Drop
         ret = p.ret
         is_ok = ret[0] == "agg" and ret[1].endswith("Result::Ok")
         is_err = ret[0] == "agg" and ret[1].endswith("Result::Err")
+        base = ret
+        while base[0] in ("maperr", "mapok"):
+            base = base[1]
+        if not is_ok and not is_err and enq and base == enq[-1].result and outs[-1] == "?" and all(o != "Ok" for o in outs[:-1]):
+            # the wrapper returns the last attempt's own Result (mapped): Ok iff that attempt
+            # succeeded, by construction
+            rep.ok(R, "result-is-the-attempts-result:%s:%s" % (pol, short(b.path)), ctx.where(b), "path [%s] returns the (mapped) Result of its enqueue attempt" % p.describe())
+            continue
         if is_ok:
             rep.check(succeeded == 1, R, "ok-means-enqueued:%s:%s" % (pol, short(b.path)), ctx.where(b),
                       "path [%s] returns Ok and exactly one enqueue attempt succeeded" % p.describe(),
